@@ -14,6 +14,16 @@ EXTRACT ("C10Quat", q_toMatrix33, "C10.Quat.toMatrix33", { IN (Quat, q); c.out (
 EXTRACT ("C10Quat", q_toMatrix44, "C10.Quat.toMatrix44", { IN (Quat, q); c.out (q.toMatrix44 ()); })
 EXTRACT ("C10Quat", q_m33MulQuat, "C10.M33.mulQuat", { IN (Matrix33, m); IN (Quat, q); c.out (m * q); })
 EXTRACT ("C10Quat", q_quatMulM33, "C10.Quat.mulM33", { IN (Quat, q); IN (Matrix33, m); c.out (q * m); })
+// ---- the code's own vector x matrix and matrix x matrix operators (also in C05; extracted again so that C10's
+//      theorems "rotateVector = v * toMatrix33" and "toMatrix33 (q1*q2) = product" are statements about the code's operators
+//      and depend on C10's regenerated modules only)
+EXTRACT ("C10Quat", v3_mulM33, "C10.V3.mulM33", { IN (Vec3, v); IN (Matrix33, m); c.out (v * m); })
+EXTRACT ("C10Quat", v3_mulM44, "C10.V3.mulM44", { IN (Vec3, v); IN (Matrix44, m); c.out (v * m); })
+EXTRACT ("C10Quat", m44_multDir, "C10.M44.multDirMatrix", { IN (Matrix44, m); IN (Vec3, v); Vec3<T> d; m.multDirMatrix (v, d); c.out (d); })
+EXTRACT ("C10Quat", m33_mul, "C10.M33.mul", { IN (Matrix33, a); IN (Matrix33, b); c.out (a * b); })
+EXTRACT ("C10Quat", m44_mul, "C10.M44.mul", { IN (Matrix44, a); IN (Matrix44, b); c.out (a * b); })
+EXTRACT ("C10Quat", m33_transposed, "C10.M33.transposed", { IN (Matrix33, a); c.out (a.transposed ()); })
+EXTRACT ("C10Quat", m33_det, "C10.M33.determinant", { IN (Matrix33, a); c.outS (a.determinant ()); })
 // ---- product (also in C05; extracted again so that C10's theorems depend on C10's regenerated module only), conjugate, inverse
 EXTRACT ("C10Quat", q_mul, "C10.Quat.mul", { IN (Quat, a); IN (Quat, b); c.out (a * b); })
 EXTRACT ("C10Quat", q_conj, "C10.Quat.conj", { IN (Quat, q); c.out (~q); })
@@ -35,7 +45,7 @@ EXTRACT ("C10Quat", q_angle, "C10.Quat.angle", { IN (Quat, q); c.outS (q.angle (
 EXTRACT ("C10Quat", q_axis, "C10.Quat.axis", { IN (Quat, q); c.out (q.axis ()); })
 EXTRACT ("C10Quat", q_setAxisAngle, "C10.Quat.setAxisAngle", { IN (Quat, q); IN (Vec3, axis); T radians = c.inS ("radians"); q.setAxisAngle (axis, radians); c.out (q); })
 // ---- setRotation (three paths: <= 90 degrees, split at the halfway vector, antipodal fallback)
-EXTRACT ("C10Quat", q_setRotation, "C10.Quat.setRotation", { IN (Quat, q); IN (Vec3, from); IN (Vec3, to); q.setRotation (from, to); c.out (q); })
+EXTRACT ("C10Quat", q_setRotation, "C10.Quat.setRotation", { IN (Quat, q); IN (Vec3, vfrom); IN (Vec3, vto); q.setRotation (vfrom, vto); c.out (q); })
 // ---- interpolation
 EXTRACT ("C10Quat", f_sinx_over_x, "C10.sinx_over_x", { T x = c.inS ("x"); c.outS (sinx_over_x (x)); })
 EXTRACT ("C10Quat", q_angle4D, "C10.Quat.angle4D", { IN (Quat, q1); IN (Quat, q2); c.outS (angle4D (q1, q2)); })
@@ -45,5 +55,5 @@ EXTRACT ("C10Quat", q_intermediate, "C10.Quat.intermediate", { IN (Quat, q0); IN
 
 // ---- ImathMatrixAlgo.h / ImathMatrix.h
 EXTRACT ("C10Algo", a_extractQuat, "C10.extractQuat", { IN (Matrix44, mat); c.out (extractQuat (mat)); })
-EXTRACT ("C10Algo", a_rotationMatrix, "C10.rotationMatrix", { IN (Vec3, from); IN (Vec3, to); c.out (rotationMatrix (from, to)); })
+EXTRACT ("C10Algo", a_rotationMatrix, "C10.rotationMatrix", { IN (Vec3, vfrom); IN (Vec3, vto); c.out (rotationMatrix (vfrom, vto)); })
 EXTRACT ("C10Algo", a_m44_setAxisAngle, "C10.M44.setAxisAngle", { IN (Matrix44, m); IN (Vec3, axis); T angle = c.inS ("angle"); m.setAxisAngle (axis, angle); c.out (m); })
